@@ -4,7 +4,7 @@ use std::path::{Path, PathBuf};
 use std::process::{Command, Stdio};
 use std::time::{Duration, Instant};
 
-pub fn cli() -> String { format!("{}/target/cli/release/asca", crate::util::root()) }
+pub fn cli() -> String { format!("{}/cli/release/asca", std::env::var("VERIF_TARGET").unwrap_or_else(|_| format!("{}/target", crate::util::root()))) }
 
 pub struct CliOut { pub code: Option<i32>, pub stdout: String, pub stderr: String, pub timed_out: bool }
 
